@@ -666,7 +666,7 @@ func TestC42(t *testing.T) {
 	} else {
 		c.Oracle("ssh-keygen -F (OpenSSH) on the class where whole-string and host/port matching coincide")
 	}
-	kgBudget := ev.Scale(45, 500)
+	kgBudget := ev.Scale(80, 500)
 	kgCalls := 0
 	_, f11Listed := ev.IsKnownFinding("F11")
 
